@@ -372,7 +372,11 @@ class Check:
             wall_s=round(time.time() - self.t0, 2),
             violations=nviol,
         )
-        (ROOT / "evidence" / f"{self.pid}.json").write_text(json.dumps(ev, indent=1, default=str))
+        # evidence describes runs against /repo itself: a run against another tree (VERIF_REPO, used for
+        # seeded changes and fix validation) writes its record elsewhere
+        evdir = ROOT / "evidence" if str(REPO) == "/repo" else Path(tempfile.gettempdir()) / "xpmverif-evidence-other-tree"
+        evdir.mkdir(parents=True, exist_ok=True)
+        (evdir / f"{self.pid}.json").write_text(json.dumps(ev, indent=1, default=str))
 
 
 def main_wrapper(pid, fn, argv=None):
